@@ -374,11 +374,15 @@ def fam_ruby():
 def fam_emphasis_direction():
   WM = [None] + stylegen.VALUES["WritingMode"]
   DIR = [None] + stylegen.VALUES["Direction"]
-  prod = Product([WM, ["spec", "init", "anim"], DIR, ["spec", "init", "anim"], [None, stylegen.VALUES["TextEmphasis"][1], stylegen.VALUES["TextEmphasis"][4]]])
+  # a writing mode specified on a content element does not apply to it and must not reach its descendants either
+  CWM = [None, ("div", "tbrl"), ("p", "tbrl"), ("p", "lrtb"), ("body", "tblr")]
+  prod = Product([WM, ["spec", "init", "anim"], DIR, ["spec", "init", "anim"], [None, stylegen.VALUES["TextEmphasis"][1], stylegen.VALUES["TextEmphasis"][4]], CWM])
 
   def dec(i):
-    wm, wsrc, dr, dsrc, te = prod.decode(i)
+    wm, wsrc, dr, dsrc, te, cwm = prod.decode(i)
     spec, nodes = _chain()
+    if cwm is not None:
+      nodes[cwm[0]].setdefault("st", {})["WritingMode"] = ["E", "WritingModeType", cwm[1]]
     for name, v, src in (("WritingMode", wm, wsrc), ("Direction", dr, dsrc)):
       if v is None:
         continue
@@ -391,7 +395,7 @@ def fam_emphasis_direction():
     if te is not None:
       nodes["span"].setdefault("st", {})["TextEmphasis"] = te
     return spec
-  return _fam("F-emphasis-direction", prod.n, dec, "writing mode / direction from specified, initial, animated sources x textEmphasis auto")
+  return _fam("F-emphasis-direction", prod.n, dec, "writing mode / direction from specified, initial, animated sources x textEmphasis auto x a writing mode specified on a content element")
 
 
 def plan(tier, seed):
